@@ -125,6 +125,11 @@ package execution
 //@   at scan.NewMatrixSelector assert[C03,C11] range-selector-args: $selectRange == t.Range && $offset == vs.Offset && $opts == opts &&
 //@       $shard == i && $numShard == numShards && 0 <= i && i < numShards && ref($call) == ref(call) && $funcExpr == e && $selector == filter
 //@   at scan.NewNumberLiteralSelector assert[C06] literal-args: $opts == opts
+// timestamp() of a bare selector must report every sample's own timestamp (statement of C06); step
+// vectors carry no per-sample timestamps, so the engine cannot evaluate it: it has to be left to the
+// fallback. (Known finding on the pinned tree: it is planned natively and returns the step time.)
+//@   at function.NewFunctionOperator assert[C06] timestamp-of-a-selector-is-not-planned-natively:
+//@       !($funcExpr.Func.Name == "timestamp" && len($funcExpr.Args) == 1 && istype($funcExpr.Args[0], *parser.VectorSelector))
 //@   at function.NewFunctionOperator assert[C06] function-args: $funcExpr == e && ref($call) == ref(call) && $opts == opts && sameslice($nextOps, nextOperators)
 //@   at function.NewFunctionCall assert[C03,C06,C08] function-looked-up-by-name: $f == e.Func
 //@   at aggregate.NewHashAggregate assert[C04] aggregation-args: $aggregation == e.Op && $by == !e.Without && sameslice($labels, e.Grouping) &&
